@@ -261,18 +261,45 @@ Proof.
     + cbn. rewrite Hc. cbn. now apply mem_nat_In.
 Qed.
 
+Lemma emit_failed_false e outs conf :
+  emit_failed e outs conf = Some false -> ~ In FAILED conf.
+Proof.
+  unfold emit_failed. destruct (mem Nat.eqb FAILED conf) eqn:E; [discriminate|].
+  intros _. now apply mem_nat_false.
+Qed.
+
+Lemma emit_failed_true e outs conf :
+  emit_failed e outs conf = Some true -> In FAILED conf \/ conf = [].
+Proof.
+  unfold emit_failed. destruct (mem Nat.eqb FAILED conf) eqn:E.
+  - intros _. left. now apply mem_nat_In.
+  - destruct conf; [auto|discriminate].
+Qed.
+
+Lemma emit_failed_default e outs ef :
+  emit_failed e outs [] = Some ef ->
+  exists req0, iter_required e outs None = Some req0 /\ (ef = true <-> In FAILED req0).
+Proof.
+  unfold emit_failed. cbn.
+  destruct (iter_required e outs None) as [req0|]; [|discriminate].
+  intros [= <-]. exists req0. split; [reflexivity|]. apply mem_nat_In.
+Qed.
+
 Lemma skip_In e outs conf l x :
   skip_outputs e outs conf = Some l ->
-  exists req, iter_required e outs (Some (skip_disable conf)) = Some req /\
-  (In x l <->
-     x = SUBMITTED \/ x = STARTED
-     \/ (In x req /\ x <> SUCCEEDED /\ x <> FAILED /\ (conf = [] \/ In x conf))
-     \/ (In x outs /\ In x conf)
-     \/ x = (if mem Nat.eqb FAILED conf then FAILED else SUCCEEDED)).
+  exists ef req,
+    emit_failed e outs conf = Some ef /\
+    iter_required e outs (Some (skip_disable ef)) = Some req /\
+    (In x l <->
+       x = SUBMITTED \/ x = STARTED
+       \/ (In x req /\ x <> SUCCEEDED /\ x <> FAILED /\ (conf = [] \/ In x conf))
+       \/ (In x outs /\ In x conf)
+       \/ x = (if ef then FAILED else SUCCEEDED)).
 Proof.
   unfold skip_outputs.
-  destruct (iter_required e outs (Some (skip_disable conf))) as [req|]; [|discriminate].
-  intros [= <-]. exists req. split; [reflexivity|].
+  destruct (emit_failed e outs conf) as [ef|] eqn:Eef; [|discriminate].
+  destruct (iter_required e outs (Some (skip_disable ef))) as [req|] eqn:Ereq; [|discriminate].
+  intros [= <-]. exists ef, req. split; [reflexivity|]. split; [exact Ereq|].
   rewrite canon_set_In. cbn [app In]. rewrite !in_app_iff, !filter_In. cbn [In].
   rewrite !andb_true_iff, !negb_true_iff, orb_true_iff, !Nat.eqb_neq, !mem_nat_In.
   assert (Hnil : is_nil conf = true <-> conf = []) by (destruct conf; cbn; split; congruence).
@@ -282,44 +309,62 @@ Qed.
 Lemma skip_exactly_one e outs conf l :
   skip_outputs e outs conf = Some l ->
   ~ (In SUCCEEDED conf /\ In FAILED conf) ->
-  if mem Nat.eqb FAILED conf
-  then In FAILED l /\ ~ In SUCCEEDED l
-  else In SUCCEEDED l /\ ~ In FAILED l.
+  exists ef, emit_failed e outs conf = Some ef /\
+    if ef then In FAILED l /\ ~ In SUCCEEDED l
+    else In SUCCEEDED l /\ ~ In FAILED l.
 Proof.
   intros Hs Hnb.
-  destruct (skip_In e outs conf l FAILED Hs) as [req [_ HF]].
-  destruct (skip_In e outs conf l SUCCEEDED Hs) as [req' [_ HS]].
-  destruct (mem Nat.eqb FAILED conf) eqn:Em.
-  - apply mem_nat_In in Em. split.
+  destruct (skip_In e outs conf l FAILED Hs) as [ef [req [Hef [_ HF]]]].
+  destruct (skip_In e outs conf l SUCCEEDED Hs) as [ef' [req' [Hef' [_ HS]]]].
+  rewrite Hef in Hef'. injection Hef' as <-.
+  exists ef. split; [exact Hef|]. destruct ef.
+  - split.
     + apply HF. tauto.
-    + rewrite HS. unfold SUCCEEDED, SUBMITTED, STARTED, FAILED in *.
-      intros [H|[H|[H|[H|H]]]]; try discriminate; tauto.
-  - apply mem_nat_false in Em. split.
+    + rewrite HS. pose proof (emit_failed_true _ _ _ Hef) as Ht.
+      unfold SUCCEEDED, SUBMITTED, STARTED, FAILED in *.
+      intros [H|[H|[H|[[_ H]|H]]]]; try discriminate; try tauto.
+      destruct Ht as [Ht| ->]; [tauto|destruct H].
+  - pose proof (emit_failed_false _ _ _ Hef) as Hf. split.
     + apply HS. tauto.
     + rewrite HF. unfold SUCCEEDED, SUBMITTED, STARTED, FAILED in *.
       intros [H|[H|[H|[H|H]]]]; try discriminate; tauto.
 Qed.
 
+(* every required output is generated by default skip mode, unless succeeded
+   AND failed are both required (then "exactly one of succeeded/failed" makes
+   that impossible for any output set) *)
 Lemma skip_default_contains_required e outs l o :
   valid e outs ->
   skip_outputs (Some e) outs [] = Some l ->
-  In o outs -> classify (Some e) outs None o = Opt false ->
-  o <> FAILED -> In o l.
+  ~ (In SUCCEEDED outs /\ classify (Some e) outs None SUCCEEDED = Opt false /\
+     In FAILED outs /\ classify (Some e) outs None FAILED = Opt false) ->
+  In o outs -> classify (Some e) outs None o = Opt false -> In o l.
 Proof.
-  intros Hv Hs Ho Hc Hf.
-  destruct (skip_In (Some e) outs [] l o Hs) as [req [Hreq HI]].
-  apply HI. destruct (Nat.eq_dec o SUCCEEDED) as [->|Hns].
-  - right; right; right; right. reflexivity.
-  - right; right; left. repeat split; auto.
-    apply (iter_required_In _ _ _ _ o Hreq). split; [exact Ho|].
-    now apply required_mono_disable.
+  intros Hv Hs Hboth Ho Hc.
+  destruct (skip_In (Some e) outs [] l o Hs) as [ef [req [Hef [Hreq HI]]]].
+  destruct (emit_failed_default _ _ _ Hef) as [req0 [Hreq0 Hef0]].
+  pose proof (iter_required_In _ _ _ _ FAILED Hreq0) as HF0.
+  apply HI.
+  destruct (Nat.eq_dec o FAILED) as [->|Hnf].
+  { right; right; right; right.
+    assert (ef = true) by (apply Hef0, HF0; auto). subst ef. reflexivity. }
+  destruct (Nat.eq_dec o SUCCEEDED) as [->|Hns].
+  { right; right; right; right. destruct ef; [|reflexivity].
+    exfalso. apply Hboth. assert (In FAILED req0) by now apply Hef0.
+    apply HF0 in H. tauto. }
+  right; right; left. repeat split; auto.
+  apply (iter_required_In _ _ _ _ o Hreq). split; [exact Ho|].
+  now apply required_mono_disable.
 Qed.
 
 Lemma skip_valid_some e outs conf :
   valid e outs -> exists l, skip_outputs (Some e) outs conf = Some l.
 Proof.
-  intros Hv. unfold skip_outputs, iter_required.
-  rewrite (goo_valid_some _ _ _ Hv). eauto.
+  intros Hv. unfold skip_outputs.
+  assert (He : exists ef, emit_failed (Some e) outs conf = Some ef).
+  { unfold emit_failed, iter_required. rewrite (goo_valid_some _ _ _ Hv).
+    destruct (mem Nat.eqb FAILED conf); [eauto|]. destruct (is_nil conf); eauto. }
+  destruct He as [ef ->]. unfold iter_required. rewrite (goo_valid_some _ _ _ Hv). eauto.
 Qed.
 
 (* ---------- skip mode on the DEFAULT expression: graph-required outputs ---------- *)
@@ -362,12 +407,15 @@ Qed.
 Lemma skip_default_graph_required t e l o :
   In SUCCEEDED (map fst t) -> In FAILED (map fst t) ->
   default_expr t = Some e ->
+  (* not the degenerate flag combination "failure tolerated, yet `failed`
+     necessary": there `failed` alone completes the task *)
+  (fail_tolerated t = true -> classify (Some e) (map fst t) None FAILED <> Opt false) ->
   skip_outputs (Some e) (map fst t) [] = Some l ->
   In o (required t) -> o <> SUCCEEDED -> o <> FAILED -> In o l.
 Proof.
-  intros H4 H5 He Hs Ho Hns Hnf.
+  intros H4 H5 He Hdeg Hs Ho Hns Hnf.
   pose proof (default_expr_valid t e H4 H5 He) as Hv.
-  destruct (skip_In (Some e) (map fst t) [] l o Hs) as [req [Hreq HI]].
+  destruct (skip_In (Some e) (map fst t) [] l o Hs) as [ef [req [Hef [Hreq HI]]]].
   apply HI. right; right; left. repeat split; auto.
   apply (iter_required_In _ _ _ _ o Hreq).
   assert (Hout : In o (map fst t)).
@@ -379,16 +427,22 @@ Proof.
   rewrite Hu. f_equal.
   assert (Ee : completion_expr t None = e) by (unfold completion_expr; now rewrite He).
   rewrite <- Ee, default_expr_semantics. unfold spec_complete.
-  set (s := missing_with (Some (skip_disable [])) o).
+  set (s := missing_with (Some (skip_disable ef)) o).
   assert (Hso : s o = false).
   { unfold s, missing_with, alone_missing. rewrite Nat.eqb_refl. cbn. now rewrite !andb_false_r. }
-  assert (Hsf : s FAILED = false) by reflexivity.
-  assert (Hss : s SUBMIT_FAILED = false) by reflexivity.
-  assert (Hse : s EXPIRED = false) by reflexivity.
+  assert (Hss : s SUBMIT_FAILED = false) by (destruct ef; reflexivity).
+  assert (Hse : s EXPIRED = false) by (destruct ef; reflexivity).
   assert (Hreq' : forallb s (required t) = false).
   { destruct (forallb s (required t)) eqn:E; [|reflexivity].
     rewrite forallb_forall in E. rewrite (E o Ho) in Hso. discriminate. }
   assert (Hne : nonempty (required t) = true) by (destruct (required t); [destruct Ho|reflexivity]).
-  rewrite Hreq', Hne, Hsf, Hss, Hse. rewrite orb_true_r. cbn.
-  destruct (fail_tolerated t); cbn; now rewrite !andb_false_r.
+  rewrite Hreq', Hne, Hss, Hse. rewrite orb_true_r. cbn [negb].
+  rewrite !andb_false_r, !orb_false_r.
+  destruct (fail_tolerated t) eqn:Eft; [|reflexivity].
+  (* failure tolerated: then `failed` is not necessary, so it is the disabled output *)
+  destruct ef.
+  - exfalso. apply (Hdeg eq_refl).
+    destruct (emit_failed_default _ _ _ Hef) as [req0 [Hreq0 Hef0]].
+    apply (iter_required_In _ _ _ _ FAILED Hreq0). now apply Hef0.
+  - assert (Hsf : s FAILED = false) by reflexivity. rewrite Hsf. cbn. reflexivity.
 Qed.
